@@ -5,6 +5,7 @@ CONSTANTS
   MaxIgnore = 2
   MaxMatchConds = 3
   MaxIgnoreConds = 3
+  Shared = FALSE
   Reduced = FALSE
   WithAlt = TRUE
 CHECK_DEADLOCK FALSE
